@@ -5,6 +5,7 @@ import NimaVerif.Drv.Edit
 import NimaVerif.Drv.Cli
 import NimaVerif.Drv.Paths
 import NimaVerif.Drv.Value
+import NimaVerif.Drv.Cost
 /-!
 Line-protocol driver: one request per line on stdin, one reply per line on stdout.
 Each topic has its own handler module `NimaVerif/Drv/<Topic>.lean` exporting
@@ -19,7 +20,8 @@ def handlers : List (SExp → Option SExp) := [
   Nima.Drv.Edit.handle,
   Nima.Drv.Cli.handle,
   Nima.Drv.Paths.handle,
-  Nima.Drv.Value.handle
+  Nima.Drv.Value.handle,
+  Nima.Drv.Cost.handle
 ]
 
 def dispatch (req : SExp) : SExp :=
